@@ -39,6 +39,58 @@ fn close(a: f64, b: f64) -> bool {
     a == b || (a - b).abs() <= 1e-12 * a.abs().max(b.abs())
 }
 
+/// The final scaling constant of a rating (catch 4.59, mania 0.018, flashlight 0.0675 at the pinned commit) is not part of the property: it is *calibrated* on a fixed reference
+/// map per class, so a rebalanced constant does not raise an alarm while a rating that stops following from
+/// the peaks does. What stays fixed is what the property names: the decay-weighted sum (0.94 catch, 0.9
+/// default), the plain sum for flashlight, the square root, and flashlight's documented mod adjustments (TouchDevice ^0.8, then
+/// Relax x0.7 or Autopilot x0.4) in their documented order.
+fn reference_ratio(class: usize) -> Result<f64, String> {
+    use std::sync::OnceLock;
+    static CAL: [OnceLock<Result<f64, String>>; 3] = [const { OnceLock::new() }; 3];
+    CAL[class]
+        .get_or_init(|| {
+            let mut text = String::from("osu file format v14\n\n[General]\nMode: ");
+            text.push_str(match class {
+                0 => "2",
+                1 => "3",
+                _ => "0",
+            });
+            text.push_str("\n\n[Difficulty]\nHPDrainRate:5\nCircleSize:4\nOverallDifficulty:7\nApproachRate:8\nSliderMultiplier:1.4\nSliderTickRate:1\n\n[TimingPoints]\n0,400,4,1,0,100,1,0\n\n[HitObjects]\n");
+            for i in 0..40 {
+                let x = [64, 448, 192, 320][i % 4];
+                text.push_str(&format!("{x},{},{},1,0,0:0:0:0:\n", 100 + (i * 37) % 200, 1000 + i * 180));
+            }
+            let map = rosu_pp::Beatmap::from_bytes(text.as_bytes()).map_err(|e| e.to_string())?;
+            let (mode, bits) = match class {
+                0 => (GameMode::Catch, 0),
+                1 => (GameMode::Mania, 0),
+                _ => (GameMode::Osu, 0),
+            };
+            let d = rosu_pp::Difficulty::new().mods(bits);
+            let strains = strains_for_mode(&d, &map, mode)?;
+            let attrs = calc_for_mode(&d, &map, mode)?;
+            let (base, reported) = base_and_reported(&strains, &attrs, bits).ok_or("reference map: no rating")?;
+            if !(base > 1e-6) {
+                return Err(format!("reference map of class {class} has no usable peaks (base {base})"));
+            }
+            Ok(reported / base)
+        })
+        .clone()
+}
+
+/// (documented aggregation of the returned peaks, reported rating) for the ratings the property pins down.
+fn base_and_reported(strains: &Strains, attrs: &DifficultyAttributes, bits: u32) -> Option<(f64, f64)> {
+    match (strains, attrs) {
+        (Strains::Catch(s), DifficultyAttributes::Catch(a)) => Some((weighted(&s.movement, 0.94).sqrt(), a.stars)),
+        (Strains::Mania(s), DifficultyAttributes::Mania(a)) => Some((weighted(&s.strains, 0.9), a.stars)),
+        (Strains::Osu(s), DifficultyAttributes::Osu(a)) => {
+            let _ = bits;
+            Some((s.flashlight.iter().sum::<f64>().sqrt(), a.flashlight))
+        }
+        _ => None,
+    }
+}
+
 fn case(t: &mut Tape, info: &mut CaseInfo) -> Result<(), String> {
     let mut prof = MapProfile::small(ALL_MODES, 50);
     prof.long_gaps = true;
@@ -97,33 +149,30 @@ fn run(t: &mut Tape, info: &mut CaseInfo, prof: &MapProfile, long: bool) -> Resu
     info.comparisons += 1;
     let bits = c.dspec.mods.bits;
     match (&strains, &attrs) {
-        (Strains::Catch(s), DifficultyAttributes::Catch(a)) => {
-            let stars = weighted(&s.movement, 0.94).sqrt() * 4.59;
-            if !close(stars, a.stars) {
-                return Err(format!("catch stars {} vs re-aggregated {stars}", a.stars));
-            }
-        }
-        (Strains::Mania(s), DifficultyAttributes::Mania(a)) => {
-            let stars = weighted(&s.strains, 0.9) * 0.018;
-            if !close(stars, a.stars) {
-                return Err(format!("mania stars {} vs re-aggregated {stars}", a.stars));
-            }
-        }
-        (Strains::Osu(s), DifficultyAttributes::Osu(a)) => {
-            let mut fl = s.flashlight.iter().sum::<f64>().sqrt() * 0.0675;
-            if bits & TD != 0 {
-                fl = fl.powf(0.8);
-            }
-            if bits & RX != 0 {
-                fl *= 0.7;
-            } else if bits & AP != 0 {
-                fl *= 0.4;
-            }
-            if !close(fl, a.flashlight) {
-                return Err(format!("osu flashlight {} vs re-aggregated {fl}", a.flashlight));
-            }
-        }
         (Strains::Taiko(_), DifficultyAttributes::Taiko(_)) => {}
+        (Strains::Catch(_), DifficultyAttributes::Catch(_)) | (Strains::Mania(_), DifficultyAttributes::Mania(_)) | (Strains::Osu(_), DifficultyAttributes::Osu(_)) => {
+            let (class, what) = match c.target {
+                GameMode::Catch => (0, "catch stars"),
+                GameMode::Mania => (1, "mania stars"),
+                _ => (2, "osu flashlight"),
+            };
+            let (base, reported) = base_and_reported(&strains, &attrs, bits).ok_or("no rating")?;
+            let mut expected = base * reference_ratio(class)?;
+            if class == 2 {
+                // the documented mod adjustments of the flashlight rating, in their documented order
+                if bits & TD != 0 {
+                    expected = expected.powf(0.8);
+                }
+                if bits & RX != 0 {
+                    expected *= 0.7;
+                } else if bits & AP != 0 {
+                    expected *= 0.4;
+                }
+            }
+            if !close(expected, reported) {
+                return Err(format!("{what} {reported} vs re-aggregated {expected}"));
+            }
+        }
         _ => return Err("strains and attributes are of different modes".into()),
     }
     info.comparisons += 1;
@@ -149,7 +198,7 @@ pub fn property() -> Property {
         id: "C16",
         subchecks: vec![SubCheck {
             name: "strains-reaggregate",
-            rule: "G-MAP (all modes + converts, <=50 objects, long breaks and negative first times) x G-DIFF incl. passed_objects. Oracle: all peaks finite and >= 0; all vectors of a Strains value have equal length; section_len 400 (750 catch); harness re-implementation of the documented aggregation (drop non-positive, sort descending, sum peak*w^i): catch stars = sqrt(sum, w=0.94)*4.59, mania stars = sum(w=0.9)*0.018, osu flashlight = sqrt(plain sum)*0.0675 then ^0.8 (TD), *0.7 (RX) / *0.4 (AP), relative tolerance 1e-12 against calculate() with the same settings. Non-trivial: >=2 non-zero peaks with >=1 zero section between them.",
+            rule: "G-MAP (all modes + converts, <=50 objects, long breaks and negative first times) x G-DIFF incl. passed_objects. Oracle: all peaks finite and >= 0; all vectors of a Strains value have equal length; section_len 400 (750 catch); harness re-implementation of the documented aggregation (drop non-positive, sort descending, sum peak*w^i): catch stars = k*sqrt(sum, w=0.94), mania stars = k*sum(w=0.9), osu flashlight = k*sqrt(plain sum) then ^0.8 (TD), *0.7 (RX) / *0.4 (AP), where the scaling constant k of each rating is calibrated on a fixed reference map instead of being hard-coded; relative tolerance 1e-12 against calculate() with the same settings. Non-trivial: >=2 non-zero peaks with >=1 zero section between them.",
             quick: 60_000,
             thorough: 200_000,
             tape_len: 1500,
@@ -164,7 +213,7 @@ pub fn property() -> Property {
             f: case_long,
             direct: None,
         }],
-        assumptions: &["re-aggregation compares the harness's re-implementation of the documented formula with the library: relative tolerance 1e-12"],
+        assumptions: &["re-aggregation compares the harness's re-implementation of the documented formula with the library: relative tolerance 1e-12; the final scaling constants are calibrated on a reference map per rating class (a rebalanced multiplier is not a violation)"],
         enumerate: None,
     }
 }
